@@ -76,7 +76,7 @@ op_data_raw = [
     OperatorData("greater", 50, assoc=LEFT, ascii_op=">"),
     OperatorData("zero", 0, arity=CONST, ascii_op="0"),
     OperatorData("append", 65, assoc=RIGHT, ascii_op="@"),
-    OperatorData("cons", 65, assoc=RIGHT, ascii_op="#"),
+    OperatorData("cons", 64, assoc=RIGHT, ascii_op="#"),  # binds weaker than append in the grammar
     OperatorData("member", 50, assoc=LEFT, ascii_op="Mem", unicode_op="∈"),
     OperatorData("subset", 50, assoc=LEFT, ascii_op="Sub", unicode_op="⊆"),
     OperatorData("inter", 70, assoc=LEFT, ascii_op="Int", unicode_op="∩"),
